@@ -2034,7 +2034,9 @@ impl Element {
     pub fn add_to_file(&self, file: &ArxmlFile) -> Result<(), AutosarDataError> {
         let parent_splittable = self.parent()?.is_none_or(|p| p.element_type().splittable() != 0);
         if parent_splittable {
-            if file.model()? == self.model()? {
+            let model = self.model()?;
+            // the file must be one of the files of this model; a file that was removed from the model still knows its former model
+            if file.model()? == model && model.files().any(|model_file| model_file == *file) {
                 let weak_file = file.downgrade();
                 // current_fileset is the set of files which contain the current element
                 let (_, current_fileset) = self.file_membership()?;
